@@ -1350,7 +1350,7 @@ func init() {
 			// governance takes a token off the originating chain's list while a transfer that came from there is
 			// pending elsewhere: its expiry refund cannot be issued (and fails half-way through) until the token is listed again
 			dl := cfg
-			dl.Relist = []int{0} // hub @ ethereum
+			dl.Relist = []int{0, 2} // hub @ ethereum (where the deposits come from), hub @ minter (where hub users send to)
 			dl.Users = 1
 			dl.Ops = opsSet("Next", "NextTimeout", "Deposit", "Relist", "Send", "ReqBatch")
 			dl.SendChains = []string{"minter", "bsc"}
